@@ -754,6 +754,42 @@ def analyse_searches(prog, F):
                     F.add('R02d', n, fn, what, 'undecided', 'comparator of the dominating sort is outside the idiom table')
                 else:
                     F.add('R02d', n, fn, what, 'violation', detail, key='R02d|%s|unsorted' % fn.g)
+        # R01f: no candidate is taken out of the collection before the lookup is built (each candidate is a different (tree, edge) circuit)
+        for n in fn.walk():
+            if n.k in ex.CTOR_KINDS and n.callee and n.callee['g'] == 'parmcb::ShortestOddCycleLookup::ShortestOddCycleLookup' and len(n.c) >= 4:
+                cyc = ex.var_of(n.c[3])
+                what = 'no candidate cycle is removed from the collection between its construction and the lookup'
+                removers = []
+                for m in fn.walk():
+                    if m.k == 'CXXMemberCallExpr' and m.callee and m.callee['name'] in ('erase', 'pop_back', 'resize', 'clear') and ex.var_of(m.object_arg()) == cyc \
+                            and cfg.reaches(m, n):
+                        removers.append(m)
+                    if m.k == 'CallExpr' and m.callee and m.callee['g'] in ('std::remove_if', 'std::remove') and m.args() and cfg.reaches(m, n):
+                        a0 = m.args()[0].strip_all()
+                        if a0.k == 'CXXMemberCallExpr' and ex.var_of(a0.object_arg()) == cyc:
+                            removers.append(m)
+                if not removers:
+                    F.add('R01f', n, fn, what, 'ok', 'the candidate vector is only appended to and sorted')
+                    continue
+                for m in removers:
+                    uniq = [x for x in m.walk() if x.k == 'CallExpr' and x.callee and x.callee['g'] == 'std::unique']
+                    okeq = False
+                    if uniq and len(uniq[0].args()) >= 3:
+                        lam = uniq[0].args()[2].strip_all()
+                        fields = set()
+                        for op in (lam.j.get('lambda_ops', ()) if lam.k == 'LambdaExpr' else ()):
+                            lf = prog.fn_of_fref(op)
+                            for x in (lf.walk() if lf is not None else ()):
+                                if x.k == 'CXXMemberCallExpr' and x.callee and x.callee['name'] in ('tree', 'edge', 'weight'):
+                                    fields.add(x.callee['name'])
+                        okeq = {'tree', 'edge'} <= fields
+                    if okeq:
+                        F.add('R01f', m, fn, what, 'ok', 'only exact duplicates (same tree and same edge) are removed')
+                    else:
+                        F.add('R01f', m, fn, what, 'violation',
+                              '`%s` removes candidates that are not duplicates: two candidates with the same closing edge (and weight) in different trees are different '
+                              'circuits; with the isometric collection, which keeps one representative per circuit, a needed circuit disappears and a phase finds no '
+                              'odd candidate' % m.text(50), key='R01f|%s|removed' % fn.g)
         # R02f hidden-edge heuristic: the hidden set shrinks on every iteration
         for n in fn.walk():
             if n.k == 'CXXMemberCallExpr' and n.callee and n.callee['name'] == 'erase' and n.args():
